@@ -41,4 +41,19 @@ ObservedOutcome == (Recs[l].kind = "sattrace" /\ j = Len(Evs)) =>
                      LET o == Evs[Len(Evs)].outcome IN
                      /\ (now <= Max => o = "written")
                      /\ (o = "refused" => now > Max)
+\* ... and when it is written, the bytes (decoded by the strict reader, ticks in units) are the timeline the calls denote:
+\* every tick a whole number of units, the merged tracks = tl, every track's end-of-track at the end of the piece
+ObsBag(t) == LET f == Recs[l].final[t + 1]
+                 g == SelectSeq(f, LAMBDA x : x[2] # "eot")
+             IN [i \in 1..Len(g) |-> <<g[i][1], IF g[i][2] = "meta" THEN <<"meta">> ELSE <<g[i][2], g[i][3]>> >>]
+RECURSIVE ObsMerge(_, _)
+ObsMerge(t, b) == IF t > N - 1 THEN b ELSE ObsMerge(t + 1, BagAddAll(b, ObsBag(t)))
+TlKinds == LET S == DOMAIN tl IN [x \in {<<y[1], IF y[2][1] = "meta" THEN <<"meta">> ELSE y[2]>> : y \in S} |->
+              LET M == {y \in S : <<y[1], IF y[2][1] = "meta" THEN <<"meta">> ELSE y[2]>> = x}
+                  RECURSIVE Sum(_)  Sum(Q) == IF Q = {} THEN 0 ELSE LET q == CHOOSE z \in Q : TRUE IN tl[q] + Sum(Q \ {q})
+              IN Sum(M)]
+ObservedTimelineSat == (Recs[l].kind = "sattrace" /\ j = Len(Evs) /\ Evs[Len(Evs)].outcome = "written") =>
+   /\ Recs[l].parsed /\ Recs[l].finalExact
+   /\ ObsMerge(0, [x \in {} |-> 0]) = TlKinds
+   /\ \A t \in Tracks : LET f == Recs[l].final[t + 1] IN f # <<>> /\ f[Len(f)][2] = "eot" /\ f[Len(f)][1] = now
 =============================================================================
